@@ -32,6 +32,7 @@ type evalEnv struct {
 	inOld bool
 	point ssa.Instruction // program point (at-eval clauses): names resolve to the value in use here
 	prevPhis map[*ssa.Phi]Value // step clauses: the loop variables before the iteration (prev(x))
+	domBinding bool // loop-exit clauses: a name without a reference on the dominator path resolves to the value of that name defined last among the dominating blocks
 	asks  *[]*Term        // terms whose model values help to replay a refutation (the bigval(..) terms of the clause)
 }
 
@@ -267,7 +268,7 @@ func (en *evalEnv) lookupIdent(name string) (ev, bool) {
 		}
 		return ev{e.val(en.fr, v), v.Type()}, true
 	}
-	if en.point != nil && !strings.HasPrefix(name, "$") {
+	if en.point != nil && en.domBinding && !strings.HasPrefix(name, "$") {
 		// several SSA values carry this name (the binding of a type switch has one per case) and no
 		// reference lies on the dominator path of the program point: of the values that are defined in a
 		// block dominating the point, the one defined last (deepest in the dominator tree) is the binding
@@ -1174,6 +1175,7 @@ func (e *Exec) contractLoopInvs(fr *Frame, h *ssa.BasicBlock, li *loopInfo, phis
 				en := e.newEnv(fr, st, e.entry)
 				en.phis = now
 				en.point = point
+				en.domBinding = true
 				return e.evalClause(en, cl)
 			}})
 		}
